@@ -494,13 +494,14 @@ def exec_seq(sess: Session, op: dict, step: int) -> Effect:
         elif kind == 'setitem':
             w[op['i']] = vals[0]
         elif kind == 'setslice':
-            w[slice(*op['sl'])] = vals
+            # the API takes any Iterable: a list, or a one-shot iterator / generator
+            w[slice(*op['sl'])] = (x for x in vals) if op.get('as_iter') else vals
         elif kind == 'delitem':
             del w[op['i']]
         elif kind == 'delslice':
             del w[slice(*op['sl'])]
         elif kind == 'extend':
-            w.extend(vals)
+            w.extend(iter(vals) if op.get('as_iter') else vals)
         elif kind == 'iadd':
             w2 = w
             w2 += vals
